@@ -384,7 +384,7 @@ def some_unless_empty(ctx, o):
     for at in other:
         if at[0] != "pred" or at[2] is not False:
             continue
-        m = re.match(r"^(?:<impl \[T\]>|Vec::<T, A>)::is_empty\((alpha_g_[\w:]+)\((.*)\)\)$", at[1])
+        m = re.match(r"^(?:(?:<impl \[T\]>|Vec::<T, A>)::)?is_empty\((alpha_g_[\w:]+)\((.*)\)\)$", at[1])
         if not m or m.group(2) != xn:
             continue
         ga = field_accessors(prog, m.group(1))
